@@ -176,6 +176,9 @@ pub struct Scenario {
     /// (node, round): that node skips its tick in that round
     #[serde(default)]
     pub scripted_stalls: Vec<(usize, i32)>,
+    /// nodes whose game saves its states without a checksum
+    #[serde(default)]
+    pub no_checksum: Vec<usize>,
 }
 
 impl Scenario {
@@ -207,6 +210,7 @@ impl Scenario {
             inject: Vec::new(),
             link_lat: Vec::new(),
             scripted_stalls: Vec::new(),
+            no_checksum: Vec::new(),
         }
     }
 
